@@ -5,6 +5,7 @@ import (
 	"github.com/grafana/cog/internal/tools"
 	"github.com/grafana/cog/internal/veneers/builder"
 	"github.com/grafana/cog/internal/veneers/option"
+	"github.com/grafana/cog/internal/verifhook"
 )
 
 const AllLanguages = "all"
@@ -77,18 +78,30 @@ func (engine *Rewriter) ApplyTo(schemas ast.Schemas, builders []ast.Builder, lan
 func (engine *Rewriter) applyBuilderRules(schemas ast.Schemas, builders []ast.Builder, rules []builder.RewriteRule) ([]ast.Builder, error) {
 	var err error
 
+	verifRuleIndex := 0
 	for _, rule := range rules {
+		if verifhook.Enabled {
+			verifhook.Emit("veneer.builder_rule.before", verifRuleIndex, schemas, builders)
+		}
 		builders, err = rule(schemas, builders)
 		if err != nil {
 			return nil, err
 		}
+		if verifhook.Enabled {
+			verifhook.Emit("veneer.builder_rule.after", verifRuleIndex, schemas, builders)
+		}
+		verifRuleIndex++
 	}
 
 	return builders, nil
 }
 
 func (engine *Rewriter) applyOptionRules(schemas ast.Schemas, builders []ast.Builder, rules []option.RewriteRule) []ast.Builder {
+	verifRuleIndex := 0
 	for _, rule := range rules {
+		if verifhook.Enabled {
+			verifhook.Emit("veneer.option_rule.before", verifRuleIndex, schemas, builders)
+		}
 		for i, b := range builders {
 			processedOptions := make([]ast.Option, 0, len(b.Options))
 
@@ -103,6 +116,10 @@ func (engine *Rewriter) applyOptionRules(schemas ast.Schemas, builders []ast.Bui
 
 			builders[i].Options = processedOptions
 		}
+		if verifhook.Enabled {
+			verifhook.Emit("veneer.option_rule.after", verifRuleIndex, schemas, builders)
+		}
+		verifRuleIndex++
 	}
 
 	return tools.Filter(builders, func(builder ast.Builder) bool {
